@@ -28,6 +28,9 @@ type findScen struct {
 	StartSp string `json:"startSp"`
 	StopSp  string `json:"stopSp"`
 	Cwd     int    `json:"cwd"` // level of the working directory, -1 = unrelated, -2 = the file-system root; used when a spelling is rel
+	// the chain runs THROUGH directories named spokfile: level l+1 is the directory `spokfile` of level l wherever level l's
+	// entry of that name is a directory (so a start or stop directory can itself be called spokfile)
+	Through bool `json:"through"`
 }
 
 type findRec struct {
@@ -119,7 +122,7 @@ func findMain(args []string) error {
 	return nil
 }
 
-func populate(dir string, d findDir) error {
+func populate(dir string, d findDir, inner bool) error {
 	if err := os.MkdirAll(dir, 0o755); err != nil {
 		return err
 	}
@@ -133,8 +136,10 @@ func populate(dir string, d findDir) error {
 		if err := os.MkdirAll(filepath.Join(dir, "spokfile"), 0o755); err != nil {
 			return err
 		}
-		if err := os.WriteFile(filepath.Join(dir, "spokfile", "spokfile"), []byte("# inside\n"), 0o644); err != nil {
-			return err
+		if inner {
+			if err := os.WriteFile(filepath.Join(dir, "spokfile", "spokfile"), []byte("# inside\n"), 0o644); err != nil {
+				return err
+			}
 		}
 	}
 	// other entries, among them near misses of the name: sorting before (`Spokfile`, `spokfil`) and after (`spokfile.bak`, `spokfile.d/`)
@@ -182,14 +187,20 @@ func findHandle(root string, line []byte) any {
 	os.RemoveAll(filepath.Join(root, "c"))
 	os.RemoveAll(filepath.Join(root, "u"))
 	paths := map[int]string{-1: filepath.Join(root, "u"), -2: "/"}
-	if err := populate(paths[-1], s.U); err != nil {
+	if err := populate(paths[-1], s.U, true); err != nil {
 		return map[string]any{"id": s.ID, "outcome": "driver-error", "err": err.Error()}
 	}
 	p := filepath.Join(root, "c")
 	for l, d := range s.Levels {
-		p = filepath.Join(p, fmt.Sprintf("L%d", l))
+		name := fmt.Sprintf("L%d", l)
+		if s.Through && l > 0 && s.Levels[l-1].Spok == "dir" {
+			name = "spokfile"
+		}
+		p = filepath.Join(p, name)
 		paths[l] = p
-		if err := populate(p, d); err != nil {
+		// the file inside a directory named spokfile is the next level's own business when the chain runs through it
+		inner := !(s.Through && l+1 < len(s.Levels))
+		if err := populate(p, d, inner); err != nil {
 			return map[string]any{"id": s.ID, "outcome": "driver-error", "err": err.Error()}
 		}
 	}
